@@ -901,11 +901,12 @@ func trickleAgainstStalledStore(c *ctx, r Rng, i int) {
 	}
 	n := 0
 	if variant == "time" {
-		// many more batches than the bound, so that a loaded machine (late timers) still shows an unbounded backlog
-		n = 45
+		// slower than the actor's 100 ms idle ticker, so that every flush is started by the ticker (not by the
+		// next request noticing the buffer's age), and well more batches than the bound
+		n = 26
 		for k := 0; k < n; k++ {
 			send([]map[string]any{{"_id": k}}, 40*time.Millisecond)
-			time.Sleep(100 * time.Millisecond)
+			time.Sleep(230 * time.Millisecond)
 		}
 	} else {
 		n = 81
